@@ -245,6 +245,7 @@ class TGen:
         self.rng = rng
         self.env = {}
         self.feat = set()
+        self.under = 0          # > 0 while generating beneath an FString/FComponent template node
 
     def var(self, splice):
         name = "v%d" % len(self.env)
@@ -254,6 +255,20 @@ class TGen:
     def arg0(self, splice, depth):
         """A level-0 unquote argument: code whose value the reference can compute."""
         rng, r = self.rng, self.rng.random()
+        if self.under and rng.random() < 0.25:
+            # unquoted code that itself holds FComponent models, beneath an f-string template
+            self.feat.add("arg:fcomponent-in-code")
+            fs = {"t": "FStr", "b": rng.choice([None, None, "f"]), "ts": rng.random() < 0.3,
+                  "c": [{"t": "FComp", "c": [G.gen_sym(rng, "plain")] + (
+                            [{"t": "Str", "v": rng.choice([">5", "x", "^"]), "b": None}] if rng.random() < 0.3 else []),
+                         "conv": rng.choice([None, "r", "s", "a"]), "expr": rng.choice([None, "e"]),
+                         "ts": rng.random() < 0.3} for _ in range(rng.choice([1, 1, 2]))]}
+            k = rng.randrange(3)
+            if k == 0 and not splice:
+                return G.expr(G.sym("quote"), fs)
+            if k == 1 and not splice:
+                return G.expr(G.sym("quasiquote"), fs)
+            return {"t": "List", "c": [G.expr(G.sym("quote"), fs)] + ([self.var(False)] if rng.random() < 0.3 else [])}
         if r < 0.7:
             return self.var(splice)
         if r < 0.8:
@@ -312,9 +327,12 @@ class TGen:
 
     def seq(self, depth, level, no_fstr=False):
         rng = self.rng
-        t = rng.choice(["Expr", "Expr", "List", "Tuple", "Set", "Dict", "FComp"] + ([] if no_fstr else ["FStr"]))
+        t = rng.choice(["Expr", "Expr", "List", "Tuple", "Set", "Dict", "FComp", "FComp"]
+                       + ([] if no_fstr else ["FStr", "FStr"]))
         n = rng.choice([0, 1, 2, 2, 3, 4])
+        self.under += t in ("FStr", "FComp")
         kids = [self.node(depth - 1, level, True) for _ in range(n)]
+        self.under -= t in ("FStr", "FComp")
         self.feat.add("in:" + t)
         if t == "Expr":
             if rng.random() < 0.7:
@@ -384,7 +402,37 @@ def _arity_break(rng, tmpl):
     return edit(tmpl, path)
 
 
+# Deterministic regression inputs for the repaired mechanism (known_findings.json, status fixed):
+# FComponent models inside unquoted code beneath an FString/FComponent template keep their
+# conversion / expression / is_tstring. (text, env)
+_Y = "'f\"{y !r}\""
+REGRESS = {
+    "fcomponent-attrs-clobbered-in-unquote": [
+        ('f"{~' + _Y + '}"', {}), ('f"{~`f"{y !r}"}"', {}), ('f"{~[' + _Y.replace("!r", "!s") + '] !r}"', {}),
+        ('t"{~' + _Y + '}"', {}), ('f"a{~\'f"{y :>{w}}" !s :{~\'f"{z !a}"}}"', {}),
+        ('#[f[{~' + _Y + '}]f]', {}), ('[f"{~' + _Y + '}" 1]', {}), ('f"{(f ~' + _Y + ' 2)}"', {}),
+        ('f"{~@[' + _Y + ' \'f"{z !s}"]}"', {}), ('f"{x !r}{~\'t"{y}"}"', {}),
+        ('f"{~`f"{~v0 !r}"}"', {"v0": {"p": "int", "v": 5}}), ('f"{\'~' + _Y + '}"', {}),
+        ('`f"{~~' + _Y + '}"', {}), ('f"{~' + _Y + ' !a}{~`f"{q !s :{~v0}}"}"', {"v0": {"p": "str", "v": ">4"}}),
+        ('f"{~' + _Y + ' = }"', {}), ('{f"{~' + _Y + '}" f"{~\'f"{y = }"}"}', {}),
+    ],
+}
+REGRESS_TOTAL = {k: len(v) for k, v in REGRESS.items()}
+
+
+def gate(tot, classes, extra, tier):
+    missing = [k for k, n in REGRESS_TOTAL.items() if classes.get("regress:" + k, 0) < n]
+    if missing:
+        return "regression-inputs-did-not-all-run:" + ",".join(missing)
+
+
 def cases(seed, tier, shard, nshards):
+    n = 0
+    for key, items in REGRESS.items():
+        for text, env in items:
+            n += 1
+            if n % nshards == shard:
+                yield {"tmpl": None, "text": text, "env": env, "regress": key}
     i = 0
     while True:
         rng = rng_for(seed, ID, shard, i)
@@ -518,13 +566,15 @@ NORMALISERS = [
 def run_case(case):
     import hy
     ev0 = _state["events"]
-    classes = []
+    classes = ["regress:" + case["regress"]] if "regress" in case else []
     if "text" in case:
         try:
             tmpl = hy.read(case["text"])
         except Exception:
             return {"ok": None, "classes": ["skip:generated-text-unreadable"]}
         classes.append("kind:text")
+        if "regress" in case and not _has_clobber(G.enc(tmpl)):
+            return {"ok": None, "classes": ["skip:regression-input-lost-its-shape"]}
     else:
         try:
             tmpl = G.dec(case["tmpl"])
